@@ -62,8 +62,8 @@ class C05(F.Spec):
         T = rng.choice([10, 10, 20, 50, 51, 120, 240])
         silent_at = rng.choice([None, None, rng.randint(5, 120)])
         # the boot value of the microsecond counter sets the phase of the 1 s timers against the uptime seconds
-        ops = ["board relay1", "boot %d" % rng.choice([1, rng.randint(1, 999999), 950000]), "init", "sentbytes 1",
-               "msg 220 %02x0af0" % T]
+        ops = ["board relay1", "boot %d" % rng.choice([1, rng.randint(1, 999999), 950000, W - rng.randint(5, 140) * 1000000 - rng.randint(0, 999999)]),
+               "init", "sentbytes 1", "msg 220 %02x0af0" % T]      # (the last one: the 32-bit counter wraps inside the scenario)
         t = 0
         end = 150000
         # arbitrary local traffic: the device keeps sending channel values the server does not answer; only pings are answered
